@@ -18,9 +18,14 @@ def _alarm(signum, frame):
 
 
 def guarded(fn, seconds=5):
-    """Run fn() under a SIGALRM; returns ("ok", value) | ("hang",) | ("raises", type, msg)."""
+    """Run fn() under a time limit; returns ("ok", value) | ("hang",) | ("raises", type, msg).
+
+    The limit is `seconds` of CPU time of this process (ITIMER_PROF: a loaded machine does not turn a slow call into a
+    reported hang), backed by a wall-clock limit twenty times as long for a call that blocks without computing."""
     old = signal.signal(signal.SIGALRM, _alarm)
-    signal.setitimer(signal.ITIMER_REAL, seconds)
+    oldp = signal.signal(signal.SIGPROF, _alarm)
+    signal.setitimer(signal.ITIMER_PROF, seconds)
+    signal.setitimer(signal.ITIMER_REAL, 20 * seconds)
     try:
         return ("ok", fn())
     except Hang:
@@ -28,8 +33,10 @@ def guarded(fn, seconds=5):
     except Exception as e:  # noqa
         return ("raises", type(e).__name__, str(e)[:160])
     finally:
+        signal.setitimer(signal.ITIMER_PROF, 0)
         signal.setitimer(signal.ITIMER_REAL, 0)
         signal.signal(signal.SIGALRM, old)
+        signal.signal(signal.SIGPROF, oldp)
 
 
 def build(name, accel, cf, mode="static", **kw):
